@@ -2,6 +2,7 @@ package main
 
 import (
 	"fmt"
+	"os"
 	"sort"
 	"sync"
 	"time"
@@ -303,8 +304,18 @@ func (env *Env) runPath(h *Harness, shape int, prefix []int, s *Solver) (pr path
 		switch x := r.(type) {
 		case pathAbort:
 			pr.abort = &x
+			if os.Getenv("GOSYM_DEBUG_ABORT") != "" && x.kind != "assume" && x.kind != "violation" {
+				_, m := s.check(nil, in.modelWant())
+				fmt.Fprintf(os.Stderr, "ABORT %s shape %d: %s: %s tags=%v model=%v\n", h.Name, shape, x.kind, x.why, in.tags, m)
+			}
 			if x.kind == "violation" {
 				pr.violation = in.violation
+			} else if x.kind == "overflow" {
+				// unbounded recursion: reported as a violation only if the native
+				// replay crashes with a stack overflow (else inconclusive)
+				in.violateNoThrow("stack-overflow", x.why)
+				pr.violation = in.violation
+				pr.abort = &pathAbort{"violation", x.why}
 			} else if x.kind == "deadlock" {
 				in.violate("deadlock", x.why)
 				pr.violation = in.violation
